@@ -4,6 +4,7 @@
 set -e
 cd "$(dirname "$0")"
 export GOFLAGS=-mod=mod GOPROXY=off
+export VERIF_ROOT="${VERIF_ROOT:-$(pwd)}"
 # NOTE: GOTOOLCHAIN/GOSUMDB are deliberately left alone: /repo/go.mod needs go1.23.6,
 # which the default go switches to offline from the module cache.
 mkdir -p bin
